@@ -122,19 +122,45 @@ class Analysis:
         self.rmin2 = min(self.r2)
         self.rmax2 = max(self.r2)
         self.bset = set(border)
+        self._memo = {}
+        self._good = set()
+        self.Bf = [(float(b[0]), float(b[1])) for b in border]
 
     def point(self, p):
-        """(rp2, in_band_of_rmin, candidate border radii² of (near-)nearest border points)."""
+        """(rp2, in_band_of_rmin, candidate border radii² of (near-)nearest border points).  Memoised per
+        point: the same coordinate is judged for several entry points / history steps against one border."""
+        hit = self._memo.get(p)
+        if hit is not None:
+            return hit
         rp2 = sq(p, self.o)
-        d2 = [sq(p, b) for b in self.B]
-        dmin = min(d2)
-        cand = [self.r2[i] for i, d in enumerate(d2) if d <= dmin * (1 + 4 * BAND)]
+        # float screen (only ever widens the set that is then measured exactly): a border point whose float
+        # squared distance exceeds the float minimum by more than 1e-6 relative (+ an absolute floor far above
+        # any rounding of the inputs) cannot be within 4e-9 of the exact minimum
+        py, px = float(p[0]), float(p[1])
+        df = [(py - by) * (py - by) + (px - bx) * (px - bx) for by, bx in self.Bf]
+        lim = min(df) * (1 + 1e-6) + 1e-11 * (py * py + px * px + 1.0)
+        near = [i for i, d in enumerate(df) if d <= lim] if lim == lim and lim != float("inf") else range(len(df))
+        d2 = [(i, sq(p, self.B[i])) for i in near]
+        dmin = min(d for _, d in d2)
+        cand = [self.r2[i] for i, d in d2 if d <= dmin * (1 + 4 * BAND)]
         band = abs(rp2 - self.rmin2) <= 4 * BAND * max(self.rmin2, rp2)
+        self._memo[p] = (rp2, band, cand)
         return rp2, band, cand
 
 
 GRID_FORMS = ["int64", "int_list", "raw_int64", "float32", "raw_float64", "int_tuple_list"]
 MESH_FORMS = ["int64", "int_list", "raw_int64", "float32"]
+# Round 5/6 (R5-C): equal-valued inputs in other memory layouts / containers / constructors.  Every one of them
+# was checked to be accepted by the unchanged tree; NOT legal there (and therefore never generated): natively
+# stored grids / sub-size maps, tuple-of-tuples and bare Python lists for the data grid, float sub-size maps,
+# numpy integer scalars as sub-size, `general.structures.native_binned_only = True`.
+LAYOUTS = ["f_order", "tview", "strided", "readonly"]
+GRID_LAYOUT_FORMS = (LAYOUTS + ["raw_" + l for l in LAYOUTS]
+                     + ["float_list", "tuple_list", "from_irregular", "int32", "raw_int32", "raw_float64"])
+MESH_LAYOUT_FORMS = GRID_LAYOUT_FORMS + ["raw_float_list", "alias_grid"]
+MASK_FORMS = ["fortran", "tview", "from_mask2d_reset", "strided", "readonly", "list", "int", "from_mask2d",
+              "from_mask2d_reset", "invert", "ps_float"]
+SUB_FORMS = ["list", "int32", "from_array2d", "readonly", "strided", "int"]
 
 
 def is_f32(fr):
@@ -146,24 +172,162 @@ def is_f32(fr):
         return False
 
 
-def as_input(aa, values, form, mask=None):
-    """hand a coordinate list to the API in the requested representation; returns (object, float64 copy)."""
+def relayout(arr, how):
+    """an equal-valued ndarray with another memory layout (Fortran order, a transposed view of a C array of the
+    transposed shape, a strided window into a bigger buffer, read-only)."""
+    if how == "f_order" or how == "fortran":
+        return np.asfortranarray(arr)
+    if how == "tview":
+        return np.ascontiguousarray(arr.T).T
+    if how == "strided":
+        fill = True if arr.dtype == bool else 7
+        big = np.full((2 * arr.shape[0] + 1, 2 * arr.shape[1] + 1), fill, dtype=arr.dtype)
+        big[1::2, 1::2] = arr
+        return big[1::2, 1::2]
+    if how == "readonly":
+        a = arr.copy()
+        a.setflags(write=False)
+        return a
+    return arr
+
+
+def as_input(aa, values, form, mask=None, keep=None):
+    """hand a coordinate list to the API in the requested representation; returns (object, float64 copy).
+    `keep` (a list) receives every array / object created on the way (ownership histories scribble over them)."""
     flo = np.array([[float(F(a)), float(F(b))] for a, b in values]).reshape(-1, 2)
-    if form in ("int64", "raw_int64"):
-        arr = np.array([[int(F(a)), int(F(b))] for a, b in values], dtype=np.int64).reshape(-1, 2)
-    elif form == "int_list":
+    raw = form.startswith("raw")
+    base = form[4:] if raw else form
+    if base in ("int64", "int32"):
+        arr = np.array([[int(F(a)), int(F(b))] for a, b in values], dtype=base).reshape(-1, 2)
+    elif base == "int_list":
         arr = [[int(F(a)), int(F(b))] for a, b in values]
-    elif form == "int_tuple_list":
+    elif base == "int_tuple_list":
         arr = [(int(F(a)), int(F(b))) for a, b in values]
-    elif form == "float32" and all(is_f32(F(a)) and is_f32(F(b)) for a, b in values):
+    elif base == "float_list":
+        arr = [[float(a), float(b)] for a, b in flo]
+    elif base == "tuple_list":
+        arr = [(float(a), float(b)) for a, b in flo]
+    elif base == "float32" and all(is_f32(F(a)) and is_f32(F(b)) for a, b in values):
         arr = flo.astype(np.float32)
+    elif base in LAYOUTS:
+        arr = relayout(flo.copy(), base)
     else:
         arr = flo.copy()
-    if form.startswith("raw"):
+    if keep is not None and isinstance(arr, np.ndarray):
+        keep.append(arr)
+    if raw:
         return arr, flo
     if mask is not None:
-        return aa.Grid2D(values=arr, mask=mask), flo
-    return aa.Grid2DIrregular(values=arr), flo
+        g = aa.Grid2D(values=arr, mask=mask)
+        if base == "from_irregular":
+            if keep is not None:
+                keep.append(g)
+            g = aa.Grid2D(values=g, mask=mask)
+    else:
+        g = aa.Grid2DIrregular(values=arr)
+        if base == "from_irregular":
+            if keep is not None:
+                keep.append(g)
+            g = aa.Grid2DIrregular(values=g)
+    if keep is not None:
+        keep.append(g)
+    return g, flo
+
+
+def make_mask(aa, rows, ps, origin, form="plain", keep=None):
+    """the same mask (values, pixel scales, origin) through another constructor path / container / layout."""
+    a = np.array(rows, dtype=bool)
+    kw = dict(pixel_scales=ps, origin=origin)
+    if form in ("fortran", "tview", "strided", "readonly"):
+        a = relayout(a, form)
+    elif form == "list":
+        a = [[bool(v) for v in r] for r in rows]
+    elif form == "int":
+        a = a.astype(int)
+    elif form == "invert":
+        a = ~a
+        kw["invert"] = True
+    elif form == "ps_float" and ps[0] == ps[1]:
+        kw["pixel_scales"] = float(ps[0])
+        if origin == (0.0, 0.0):
+            del kw["origin"]
+    elif form == "from_mask2d":
+        a = aa.Mask2D(mask=a, **kw)
+    elif form == "from_mask2d_reset":
+        # built from a Mask2D that has ANOTHER geometry: the explicit arguments of the new one are what count
+        # (also an explicit origin of exactly (0.0, 0.0))
+        a = aa.Mask2D(mask=a, pixel_scales=(ps[0] * 2.0, ps[1] * 0.5 + 0.125), origin=(origin[0] + 1.5, origin[1] - 0.75))
+    if keep is not None:
+        keep.append(a)
+    m = aa.Mask2D(mask=a, **kw)
+    if keep is not None:
+        keep.append(m)
+    return m
+
+
+def make_sub(aa, sub, mask, form="auto", int_sub=False, keep=None):
+    """the sub-size map as a Python int (uniform maps) or an Array2D built from another container / dtype / layout."""
+    if (int_sub or form == "int") and len(set(sub)) == 1:
+        return int(sub[0])
+    v = np.array(sub, dtype=int)
+    if form == "list":
+        v = [int(x) for x in sub]
+    elif form == "int32":
+        v = v.astype(np.int32)
+    elif form == "readonly":
+        v.setflags(write=False)
+    elif form == "strided":
+        big = np.full(2 * len(sub) + 1, 9, dtype=int)
+        big[1::2] = v
+        v = big[1::2]
+    elif form == "from_array2d":
+        v = aa.Array2D(values=v, mask=mask)
+    if keep is not None:
+        keep.append(v)
+    a = aa.Array2D(values=v, mask=mask)
+    if keep is not None:
+        keep.append(a)
+    return a
+
+
+def scribble(objs, mode):
+    """overwrite, in place, every writeable array among `objs` (objects of the library are reached through
+    `_array`): floats -> nan / +1, integers -> -7 / +1, bools flipped."""
+    seen = set()
+    for o in objs:
+        a = getattr(o, "_array", o)
+        if not isinstance(a, np.ndarray) or a.size == 0 or id(a) in seen:
+            continue
+        seen.add(id(a))
+        if not a.flags.writeable:
+            continue
+        try:
+            if a.dtype == bool:
+                a[...] = ~a
+            elif np.issubdtype(a.dtype, np.integer):
+                a[...] = a + 1 if mode == "inc" else -7
+            elif np.issubdtype(a.dtype, np.floating):
+                a[...] = a + 1.0 if mode == "inc" else np.nan
+        except (ValueError, TypeError):
+            pass
+
+
+# Round 5/6 (R5-D): the configuration values read on the C18 call paths (`conf.instance[...]`): only
+# `general.profiling.repeats` (numba_util.profile_func around AbstractMesh.relocated_grid_from /
+# relocated_mesh_grid_from / mesh_grid_from, active when `run_time_dict` is given).
+CONF_KEYS = {"repeats": ("general", "profiling", "repeats")}
+
+
+def conf_get():
+    from autoconf import conf
+    return {k: conf.instance[a][b][c] for k, (a, b, c) in CONF_KEYS.items()}
+
+
+def conf_set(state):
+    from autoconf import conf
+    for k, v in state.items():
+        a, b, c = CONF_KEYS[k]
+        conf.instance[a][b][c] = v
 
 
 def pts(lst):
@@ -316,6 +480,10 @@ class C18(PropertyCheck):
         #    The thorough stream starts with a slice of them so that the time-boxed searches reach them.
         if not quick:
             yield from self.history_cases(rng, 60)
+            yield from self.decade_cases(rng, 1)
+            yield from self.ownership_cases(rng, 8)
+            yield from self.option_cases(rng, 1)
+            yield from self.layout_cases(rng, 30)
         # 1. exhaustive small border shapes
         frames = [((3, 3), [2])] if quick else [((3, 3), [1, 2, 3, 4]), ((3, 4), [2])]
         for (ih, iw), subs in frames:
@@ -382,11 +550,19 @@ class C18(PropertyCheck):
                                  distortion=rng.choice(["scale", "affine", "jitter"]), int_sub=(k % 2 == 0),
                                  grid_form=GRID_FORMS[k % len(GRID_FORMS)],
                                  mesh_form=MESH_FORMS[k % len(MESH_FORMS)])
-        # 4. history stream (see 0.)
-        yield from self.history_cases(rng, 160 if quick else 740)
+        # 4. Round 5/6 streams (DESIGN §14): decades / near-degenerate ingredients (R5-A, R5-E), containers and
+        #    layouts (R5-C), options of mapper_grids_from crossed pairwise (R5-F), ownership histories (R5-B),
+        #    always-on sizes beyond 2^15 / 46341 / 2^16 (R5-E); configuration histories (R5-D) are a template of 5.
+        yield from self.decade_cases(rng, 2 if quick else 8)
+        yield from self.layout_cases(rng, 60 if quick else 400)
+        yield from self.option_cases(rng, 1 if quick else 8)
+        yield from self.ownership_cases(rng, 14 if quick else 90)
+        yield from self.big_cases(rng, quick)
+        # 5. history stream (see 0.)
+        yield from self.history_cases(rng, 156 if quick else 740)
 
     def _case(self, rng, rows, sub, ps, origin, tag, distortion, int_sub=False, via_mesh=False,
-              grid_form="float64", mesh_form="float64"):
+              grid_form="float64", mesh_form="float64", hug_eps=None):
         base = scaled_sub_grid(rows, sub, ps, origin)
         n = len(base)
         rd = lambda v: F(round(v * 1024), 1024)
@@ -437,7 +613,7 @@ class C18(PropertyCheck):
                     return tuple(F(float(an.o[c] + sign * (b[c] - an.o[c]) * (1 + eps))) for c in (0, 1))
 
                 specials = []
-                e20 = F(1, 2 ** 20)
+                e20 = hug_eps or F(1, 2 ** 20)
                 for b in (B[imin], B[imax], B[rng.randrange(len(B))]):
                     specials += [b, hug(b, e20, 1), hug(b, -e20, 1), hug(b, e20, -1), hug(b, -e20, -1),
                                  hug(b, F(63), 1), hug(b, F(-1, 2), 1)]
@@ -479,6 +655,279 @@ class C18(PropertyCheck):
             "grid": [[q(a), q(b)] for a, b in grid], "mesh": [[q(a), q(b)] for a, b in mesh],
             "via_mesh": bool(via_mesh), "grid_form": grid_form, "mesh_form": mesh_form,
         }
+
+    # ------------------------------------------------------------------ Round 5/6 streams
+    # exponents of the decades stream.  Source-plane coordinates reach ~2^20 (far outliers) and their differences
+    # are SQUARED by the code, so |k| <= 480 keeps every intermediate inside the normal double range
+    # (2^(2*(20+480)) = 2^1000 < 2^1024; 2^-10 grid spacing -> (2^-490)^2 = 2^-980 > 2^-1022).
+    DECADES = [-480, -440, -400, -300, -150, -100, -45, -30, -20, -10, 10, 20, 30, 45, 100, 150, 300, 400, 440, 480]
+    SMOOTH = ["affine", "scale", "radial", "jitter", "identity", "affine"]
+
+    def _small_world(self, rng, uniform1=False):
+        while True:
+            rows, sub, ps, origin, sb, int_sub = self._history_world(rng)
+            if uniform1:
+                sub = [1] * len(sub)
+                sb = [farthest_candidates(rows, sub, k)[-1] for k in border_pixels_independent(rows)]
+            return rows, sub, ps, origin, sb, int_sub
+
+    @staticmethod
+    def _ensure_outliers(case, sb, rng, key="grid"):
+        """make sure the relocation has something to do: up to two non-border coordinates are pushed far outside
+        along their ray from the border centroid (x6, x40) unless one already lies beyond every border point."""
+        g = pts(case[key])
+        if not sb or max(sb) >= len(g):
+            return case
+        an = Analysis([g[i] for i in sb])
+        free = [i for i in range(len(g)) if i not in set(sb)]
+        if not free or any(sq(g[i], an.o) > an.rmax2 for i in free):
+            return case
+        for i, f in zip(rng.sample(free, min(2, len(free))), (6, 40)):
+            p = g[i]
+            if p == an.o:
+                p = (an.o[0] + F(3, 8), an.o[1] - F(1, 4))
+            g[i] = tuple(F(float(an.o[c] + f * (p[c] - an.o[c]))) for c in (0, 1))
+        if "int" in str(case.get("grid_form", "")):
+            g = [(F(round(a)), F(round(b))) for a, b in g]
+        case[key] = [[q(a), q(b)] for a, b in g]
+        return case
+
+    def decade_cases(self, rng, rounds):
+        """R5-A / R5-E.  `dec_world`: an ordinary world handed over at 2^k times its size (source plane) and /
+        or 2^j (image plane) — the observation is scaled back exactly, so model, oracle and the 1e-9 tolerance
+        all work relative to the world's own magnitude; `dec_mesh`: only the mesh vertices live at another
+        magnitude; `dec_far`: the whole world sits 2^15..2^17 away from zero; `dec_circle`: all border radii
+        equal to within 2^-20..2^-40 with coordinates hugging the common radius; `dec_tiny`: the border collapsed
+        to a cluster of extent 2^-26 (smallest border radius < 1e-8) in a world of unit size; `dec_near`: pixel
+        scales equal to within 2^-20..2^-27, mask origin 2^-20..2^-27 from zero, coordinates hugging their
+        nearest border point's radius at 2^-30 / 2^-40."""
+        for r in range(rounds):
+            ks = list(self.DECADES)
+            rng.shuffle(ks)
+            for j, k in enumerate(ks):
+                rows, sub, ps, origin, sb, int_sub = self._small_world(rng)
+                kind = ["world", "world", "circle", "tiny", "world"][j % 5]
+                moderate = abs(k) <= 45
+                if kind == "world":
+                    c = self._ensure_outliers(self._case(rng, rows, sub, ps, origin, "x", distortion=rng.choice(self.SMOOTH),
+                                                         int_sub=int_sub, via_mesh=moderate and rng.random() < 0.5), sb, rng)
+                else:
+                    c = self._special_case(rng, rows, sub, ps, origin, sb, kind, int_sub)
+                c["scale_k"] = k
+                if rng.random() < 0.4:
+                    c["img_k"] = rng.choice([-45, -45, -30, 20, 45, k if abs(k) <= 150 else -45])
+                c["tag"] = f"dec_{kind}_k{'+' if k > 0 else '-'}{'45' if moderate else '150' if abs(k) <= 150 else '480'}"
+                yield c
+            # one ingredient at another magnitude: the mesh vertices only
+            for k in rng.sample([-150, -100, -45, -20, 20, 45, 100, 150], 4):
+                rows, sub, ps, origin, sb, int_sub = self._small_world(rng)
+                c = self._case(rng, rows, sub, ps, origin, "x", distortion=rng.choice(self.SMOOTH), int_sub=int_sub,
+                               via_mesh=abs(k) <= 45 and rng.random() < 0.5)
+                sc = F(2) ** k
+                c["mesh"] = [[q(F(a) * sc), q(F(b) * sc)] for a, b in c["mesh"]] + c["mesh"][:2]
+                c["tag"] = f"dec_mesh_k{'+' if k > 0 else '-'}"
+                yield c
+            # the world far from zero (mask origin and with it the source-plane coordinates)
+            for _ in range(5):
+                rows, sub, ps, origin, sb, int_sub = self._small_world(rng)
+                T = 2 ** rng.choice([12, 15, 16, 17])
+                my, mx = rng.choice([1, -1, 3]), rng.choice([1, -2, 5]) if rng.random() < 0.8 else 0
+                dist, via = rng.choice(["identity", "jitter", "affine", "scale"]), rng.random() < 0.5
+                while True:
+                    c = self._case(rng, rows, sub, ps, (F(T * my) + origin[0], F(T * mx) + origin[1]), "dec_far",
+                                   distortion=dist, int_sub=int_sub, via_mesh=via)
+                    # the code's centroid carries a rounding error of about an ulp of the offset: keep it 10x below
+                    # the 1e-9 band of the decisions, measured against the smallest border radius of THIS case
+                    # (centroid = exact sum / n: one rounding <= ulp(C)/2 per axis, C the largest |coordinate|; the
+                    # radii r_p and r_min then carry <= 0.71 ulp(C) each: 1.5 * C * 2^-52 <= band / 8)
+                    g = pts(c["grid"])
+                    rmin = fsqrt(Analysis([g[i] for i in sb]).rmin2)
+                    C = max(abs(float(v)) for i in sb for v in g[i])
+                    if 1.5 * C * 2.0 ** -52 <= 2.5e-10 * rmin or T <= 64:
+                        break
+                    T //= 4
+                yield self._ensure_outliers(c, sb, rng)
+            # near-degenerate ingredients at unit size
+            for j in range(6):
+                rows, sub, ps, origin, sb, int_sub = self._small_world(rng)
+                e = rng.choice([20, 24, 27])
+                p0 = rng.choice(gen.SCALES)
+                ps = (p0, p0 * (1 + F(rng.choice([1, -1]), 2 ** e)))
+                # |origin| < 1e-8 (inside np.allclose's absolute tolerance of zero), >= 3.7e-9 (outside the 1e-9 comparison)
+                origin = (F(rng.choice([1, -1]), 2 ** rng.choice([27, 28])), F(rng.choice([0, 1, -5]), 2 ** rng.choice([20, 24, 28])))
+                c = self._case(rng, rows, sub, ps, origin, "dec_near", distortion=rng.choice(self.SMOOTH), int_sub=int_sub,
+                               via_mesh=(j % 2 == 0), hug_eps=F(1, 2 ** rng.choice([30, 40, 25])))
+                yield self._ensure_outliers(c, sb, rng)
+
+    def _special_case(self, rng, rows, sub, ps, origin, sb, kind, int_sub):
+        """`circle`: border points on a circle of radius R about a dyadic centre, each radius perturbed by 2^-20..2^-40
+        (relative), the other coordinates inside / hugging R at 2^-12..2^-40 / outside; `tiny`: border points in a
+        cluster of extent 2^-26 about the centre, everything else at distance 0.5..5."""
+        n = sum(s_ * s_ for s_ in sub)
+        nb = len(sb)
+        Q = 2 ** 30
+        c = (gen.dyadic(rng, -4, 4, 2), gen.dyadic(rng, -4, 4, 2))
+        R = rng.choice([F(1), F(3, 2), F(5), F(1, 4)])
+        phi = rng.random()
+
+        def polar(rad, th):
+            return (F(round((c[0] + F(rad) * F(math.sin(th))) * Q), Q), F(round((c[1] + F(rad) * F(math.cos(th))) * Q), Q))
+
+        ang = [2 * math.pi * (j + phi) / nb for j in range(nb)]
+
+        def other():
+            u = rng.random()
+            th = rng.choice(ang) if rng.random() < 0.5 else rng.random() * 2 * math.pi
+            if kind == "tiny":
+                return (c if u < 0.1 else (c[0] + F(rng.randint(-3, 3), Q), c[1] + F(1, Q)) if u < 0.2
+                        else polar(F(rng.randint(4, 40), 8), th))
+            if u < 0.35:
+                return polar(R * F(rng.randint(1, 9), 10), th)
+            if u < 0.65:
+                return polar(R * (1 + F(rng.choice([1, -1]), 2 ** rng.choice([12, 20, 25, 30, 40]))), th)
+            return polar(R * F(rng.randint(12, 120), 10), th)
+
+        grid = [other() for _ in range(n)]
+        for j, i in enumerate(sb):
+            if kind == "tiny":
+                grid[i] = (c[0] + F(rng.randint(-8, 8), Q), c[1] + F(rng.randint(-8, 8), Q))
+            else:
+                grid[i] = polar(R * (1 + F(rng.choice([1, -1]), 2 ** rng.randint(20, 40))), ang[j])
+        if kind == "tiny" and len({grid[i] for i in sb}) == 1 and nb > 1:
+            grid[sb[0]] = (grid[sb[0]][0] + F(5, Q), grid[sb[0]][1])
+        mesh = [other() for _ in range(rng.randint(4, 9))] + [grid[rng.choice(sb)]]
+        return {"tag": "x", "mask": mask_json(rows), "sub": list(sub), "int_sub": bool(int_sub),
+                "ps": [q(ps[0]), q(ps[1])], "origin": [q(origin[0]), q(origin[1])],
+                "grid": [[q(a), q(b)] for a, b in grid], "mesh": [[q(a), q(b)] for a, b in mesh],
+                "via_mesh": False, "grid_form": "float64", "mesh_form": "float64"}
+
+    def layout_cases(self, rng, n_cases):
+        """R5-C: equal values through other memory layouts (Fortran order, transposed views, strided windows,
+        read-only buffers), containers (lists of lists / tuples, int32), constructors (a structure built from a
+        structure: Mask2D from a Mask2D with another geometry and an explicit origin, Array2D from Array2D,
+        Grid2DIrregular from Grid2DIrregular, Grid2D from Grid2D; `invert=True`; a float pixel scale), the same
+        object as data grid and as mesh grid, one-vertex meshes — for the mask, the sub-size map, the data grid and
+        the mesh vertices independently."""
+        for i in range(n_cases):
+            uniform1 = i % 4 == 3
+            rows, sub, ps, origin, sb, int_sub = self._small_world(rng, uniform1=uniform1)
+            gform = GRID_LAYOUT_FORMS[i % len(GRID_LAYOUT_FORMS)]
+            mform = MESH_LAYOUT_FORMS[(i * 5 + 3) % len(MESH_LAYOUT_FORMS)] if i % 3 else "float64"
+            kform = MASK_FORMS[(i * 3 + 1) % len(MASK_FORMS)] if i % 4 != 1 else "plain"
+            sform = SUB_FORMS[(i * 7) % len(SUB_FORMS)] if i % 3 != 1 else "auto"
+            if kform == "ps_float":
+                ps = (ps[0], ps[0])
+                if i % 8 < 4:
+                    origin = (F(0), F(0))
+            if kform == "from_mask2d_reset" and i % 2:
+                origin = (F(0), F(0))           # the new mask states an origin of exactly (0.0, 0.0)
+            c = self._case(rng, rows, sub, ps, origin, "x", distortion=rng.choice(self.SMOOTH + ["collapse", "line"]),
+                           int_sub=int_sub and sform == "auto", via_mesh=(i % 3 == 0),
+                           grid_form=gform, mesh_form="float64" if mform == "alias_grid" else mform)
+            c["tag"] = f"lay_{gform}"             # the other three forms are in the case (mask_form, sub_form, mesh_form)
+            self._ensure_outliers(c, sb, rng)
+            if mform == "alias_grid" and not gform.startswith("raw"):
+                c["mesh_form"] = "alias_grid"
+                c["mesh"] = c["grid"]
+            elif i % 11 == 5 and c["mesh"]:
+                c["mesh"] = c["mesh"][:1]                      # a one-vertex mesh
+            c["mask_form"], c["sub_form"] = kform, sform
+            if uniform1 and not gform.startswith("raw") and rng.random() < 0.7:
+                c["uniform_grid"] = True                       # aa.Grid2D on the mask instead of Grid2DIrregular
+            yield c
+
+    @staticmethod
+    def _pairwise(rng, levels):
+        """a small set of full assignments covering every pair of values of every two options (greedy)."""
+        names = sorted(levels)
+        pairs = lambda a: {((x, a[x]), (y, a[y])) for i_, x in enumerate(names) for y in names[i_ + 1:]}
+        need = {((x, vx), (y, vy)) for i_, x in enumerate(names) for y in names[i_ + 1:]
+                for vx in levels[x] for vy in levels[y]}
+        out = []
+        while need:
+            (x, vx), (y, vy) = min(need)
+            best = None
+            for _ in range(24):
+                cand = {n_: rng.choice(levels[n_]) for n_ in names}
+                cand[x], cand[y] = vx, vy
+                cov = pairs(cand) & need
+                if best is None or len(cov) > len(best[1]):
+                    best = (cand, cov)
+            out.append(best[0])
+            need -= best[1]
+        return out
+
+    def option_cases(self, rng, rounds):
+        """R5-F: the keyword options of `mesh.mapper_grids_from` (names from `inspect.signature` of the real
+        classes) crossed pairwise — each value of one with each value of every other, including set-but-falsy
+        values (`None`, `{}`, `Preloads()` with nothing in it, an all-zero `adapt_data`, no relocator) — for the
+        Rectangular, Delaunay and Voronoi meshes."""
+        import inspect
+        aa = load_autoarray()
+        have = set()
+        for cls in (aa.mesh.Rectangular, aa.mesh.Delaunay, aa.mesh.Voronoi):
+            have |= set(inspect.signature(cls.mapper_grids_from).parameters)
+        levels = {k: v for k, v in self.OPT_VALUES.items() if k in have and k != "border_relocator"}
+        for r in range(rounds):
+            plan = []
+            for kind in ("delaunay", "rect", "voronoi"):
+                lv = {k: v for k, v in levels.items() if kind == "rect" or k != "source_plane_mesh_grid"}
+                asg = self._pairwise(rng, lv)
+                if kind == "voronoi" and rounds == 1:
+                    asg = rng.sample(asg, max(1, len(asg) // 3))     # quick tier: a third of the Voronoi crossings
+                plan += [(kind, a) for a in asg]
+            for j, (kind, kw) in enumerate(plan):
+                uniform1 = rng.random() < 0.3
+                rows, sub, ps, origin, sb, int_sub = self._small_world(rng, uniform1=uniform1)
+                c = self._case(rng, rows, sub, ps, origin, "x", distortion=rng.choice(self.SMOOTH), int_sub=int_sub)
+                c1 = self._case(rng, rows, sub, ps, origin, "x", distortion=rng.choice(self.SMOOTH))
+                if not c["mesh"]:
+                    c["mesh"] = c1["mesh"] or [[q(F(40)), q(F(-3))], [q(F(1, 2)), q(F(1, 4))]]
+                kw = dict(kw)
+                # the relocator itself: given (the rule applies) in five of six cases, None / omitted otherwise
+                kw["border_relocator"] = "br" if j % 6 != 4 else rng.choice(["none", "omit"])
+                if kind != "rect":
+                    kw["source_plane_mesh_grid"] = "mesh"
+                self._ensure_outliers(c, sb, rng)
+                self._ensure_outliers(c1, sb, rng)
+                c["preload"] = c1["grid"]
+                c["opts"] = {"mesh": kind, "shape": rng.choice([[3, 3], [4, 3], [3, 5]]), "kw": kw}
+                if uniform1 and rng.random() < 0.5:
+                    c["uniform_grid"] = True
+                c["tag"] = f"opt_{kind}_{self._opt_branch(c)}"
+                yield c
+
+    def ownership_cases(self, rng, n_cases):
+        """R5-B: see `_run_own`."""
+        for i in range(n_cases):
+            rows, sub, ps, origin, sb, int_sub = self._small_world(rng, uniform1=(i % 3 == 2))
+            base = self._case(rng, rows, sub, ps, origin, "x", distortion=rng.choice(self.SMOOTH), int_sub=int_sub,
+                              via_mesh=True, grid_form=["float64", "f_order", "float64", "from_irregular"][i % 4],
+                              mesh_form=["float64", "float64", "readonly", "float_list"][i % 4])
+            if i % 2:
+                base["mask_form"] = ["from_mask2d", "list", "fortran"][i % 3]
+                base["sub_form"] = ["from_array2d", "list"][i % 2]
+            base.pop("tag")
+            self._ensure_outliers(base, sb, rng)
+            yield {"tag": "own_" + ("nan" if i % 2 == 0 else "inc"), "kind": "own", "base": base, "rounds": 3 + (i % 4 == 1),
+                   "scribble": "nan" if i % 2 == 0 else "inc"}
+
+    def big_cases(self, rng, quick):
+        """R5-E: always-on sizes beyond the implicit limits of narrow integer types (2^15, 46341 = sqrt(2^31), 2^16)
+        in the size dimensions a Python-speed run affords; recipes of the large stream, judged by its vectorised
+        statement of the property (no model comparison)."""
+        plan = [("points", 65536, 65536 + 2 * rng.randint(230, 900) + 1), ("mesh", 46341, 65536 + 2 * rng.randint(230, 900) + 1)]
+        if not quick:
+            plan += [("pixels", 32768, 32768 + rng.randint(200, 600)), ("frame", 65536, 65536 + rng.randint(300, 2000)),
+                     ("border", 2048, 2048 + rng.randint(100, 300)), ("subsize", 32768, 32768 + 700),
+                     ("points", 46341, 46341 + rng.randint(100, 600)), ("mesh", 65536, 2 * 65536 + 1 + 2 * rng.randint(5, 50))]
+        for dim, c0, t in plan:
+            case = self._large_recipe(rng, dim, "nonmult", c0, t)
+            if case is None:
+                continue
+            case.pop("_n_est", None)
+            case["tag"] = f"big_{dim}"
+            yield case
 
     # ------------------------------------------------------------------ Round 4 (L1): large stream
     def generate_large(self, hints, rng):
@@ -889,7 +1338,8 @@ class C18(PropertyCheck):
 
     # ------------------------------------------------------------------ Round 4 (L2): history stream
     HISTORY_TEMPLATES = ["edit_inplace", "edit_returned", "twins", "fault_reuse", "shared_sources",
-                         "shared_grid_two_relocators", "decoy_first", "derived", "preloads", "tiny_twins", "id_reuse"]
+                         "shared_grid_two_relocators", "decoy_first", "derived", "preloads", "tiny_twins", "id_reuse",
+                         "config"]
 
     def history_cases(self, rng, rounds):
         for r in range(rounds):
@@ -1080,6 +1530,22 @@ class C18(PropertyCheck):
                   ["via", "delaunay", 0, "g1", "m0", "vg2", "vm2"], ["reloc", 0, "g0", "r0"],
                   ["via_preload", "delaunay", 0, "g0", "m1", "r0"], ["mesh", 0, "g0", "m1", "q0"],
                   ["via", "delaunay", 0, "g0", "m1", "vg3", "vm3"], ["reloc", 0, "g1", "r1"]]
+        elif template == "config":
+            # Round 5/6 (R5-D): every configuration value read on the C18 call paths is flipped BETWEEN calls on the
+            # same (reused) relocator / mesh objects and on fresh grids, with calls that do not read it as controls;
+            # whatever the value in force, the result is the relocation of the current values
+            reps = [2, 3, 1, 2]
+            rng.shuffle(reps)
+            rt = lambda: rng.choice(["fresh", "fresh", "shared"])
+            S += [["via_rt", "rect", 0, "g0", None, "vg", None, rt()], ["conf", "repeats", reps[0]],
+                  ["via_rt", "rect", 0, "g0", None, "vg1", None, rt()], ["via_rt", "delaunay", 0, "g1", "m0", "vg2", "vm2", rt()],
+                  ["via", "delaunay", 0, "g0", "m1", "vg3", "vm3"], ["conf", "repeats", reps[1]],
+                  ["reloc", 0, "g0", "r0"], ["via_rt", "delaunay", 0, "g0", "m0", "vg4", "vm4", rt()]]
+            S += border_edits("g0", 1)
+            S += [["via_rt", "rect", 0, "g0", None, "vg5", None, rt()], ["conf", "repeats", reps[2]],
+                  ["via_rt", "delaunay", 0, "g0", "m1", "vg6", "vm6", rt()], ["mesh", 0, "g1", "m0", "q0"],
+                  ["conf", "repeats", reps[3]], ["via_rt", "delaunay", 0, "vg6", "vm6", "vg7", "vm7", rt()],
+                  ["via_rt", "rect", 0, "g1", None, "vg8", None, rt()]]
         elif template == "id_reuse":
             # objects are dropped and brand-new ones (other values, same shape) created right away: CPython tends to
             # hand the freed address to the next object of the same size, so anything keyed on id() goes stale
@@ -1105,8 +1571,11 @@ class C18(PropertyCheck):
                 w, use, new = st[1], [st[2]], [st[3]]
             elif op == "mesh":
                 w, use, new = st[1], [st[2], st[3]], [st[4]]
-            elif op == "via":
+            elif op in ("via", "via_rt"):
                 w, use, new = st[2], [st[3]] + ([st[4]] if st[1] == "delaunay" else []), [st[5]] + ([st[6]] if st[1] == "delaunay" else [])
+            elif op == "conf":
+                if st[1] not in CONF_KEYS:
+                    return False
             elif op == "via_preload":
                 w, use = st[2], [st[3], st[5]] + ([st[4]] if st[1] == "delaunay" else [])
             elif op in ("set", "setall", "imul"):
@@ -1159,6 +1628,7 @@ class C18(PropertyCheck):
         ql = lambda o: [[q(a), q(b)] for a, b in arr(o)]
         hist, nontrivial, final_dropped = [], False, {}
         r = t = mg = e = tgt = None
+        shared_rtd = {}
 
         def via(kind, w, g, m, **kw):
             args = dict(mask=worlds[w]["mask"], source_plane_data_grid=g, border_relocator=worlds[w]["br"], **kw)
@@ -1181,9 +1651,14 @@ class C18(PropertyCheck):
                 r = worlds[w]["br"].relocated_mesh_grid_from(grid=objs[g], mesh_grid=objs[m])
                 objs[out] = r
                 hist.append({"k": k, "out": ql(r)})
-            elif op == "via":
-                _, kind, w, g, m, og, om = st
-                mg = via(kind, w, objs[g], objs[m] if kind == "delaunay" else None)
+            elif op == "conf":
+                conf_set({st[1]: st[2]})        # restored by run_impl, also on exceptions
+            elif op in ("via", "via_rt"):
+                _, kind, w, g, m, og, om = st[:7]
+                kw = {}
+                if op == "via_rt":              # profiling active: profile_func reads general.profiling.repeats
+                    kw["run_time_dict"] = shared_rtd if st[7] == "shared" else {}
+                mg = via(kind, w, objs[g], objs[m] if kind == "delaunay" else None, **kw)
                 objs[og] = mg.source_plane_data_grid
                 e = {"k": k, "out": ql(mg.source_plane_data_grid)}
                 if kind == "delaunay":
@@ -1270,7 +1745,7 @@ class C18(PropertyCheck):
             elif op == "mesh":
                 exp.append({"k": k, "w": st[1], "grid": list(objs[st[2]]), "pts": list(objs[st[3]]), "step": st})
                 objs[st[4]] = fl(by_k[k]["out"])
-            elif op == "via":
+            elif op in ("via", "via_rt"):
                 exp.append({"k": k, "w": st[2], "grid": list(objs[st[3]]),
                             "pts": list(objs[st[4]]) if st[1] == "delaunay" else None, "via": st[1], "step": st})
                 objs[st[5]] = fl(by_k[k]["out"])
@@ -1433,61 +1908,163 @@ class C18(PropertyCheck):
         return [bits[y * mj["w"]:(y + 1) * mj["w"]] for y in range(mj["h"])]
 
     def run_impl(self, case):
+        load_autoarray()
         if case.get("kind") == "large":
             return self._run_large(case)
         if case.get("kind") == "history":
-            return self._run_history(case)
+            base_conf = conf_get()
+            try:
+                return self._run_history(case)
+            finally:
+                conf_set(base_conf)         # configuration histories: restore, also when the history raises
+        if case.get("kind") == "own":
+            return self._run_own(case)
+        return self._observe(case)
+
+    def _run_own(self, case):
+        """Round 5/6 (R5-B) ownership history: observe -> scribble in place over EVERY array the API accepted or
+        returned -> rebuild the same world from fresh equal inputs -> observe again (`rounds` times).  Each
+        observation is an ordinary one and is judged like one (model value for a fresh world, oracle)."""
+        out = []
+        for _ in range(int(case.get("rounds", 3))):
+            sink = []
+            out.append(self._observe(case["base"], sink))
+            scribble(sink, case.get("scribble", "nan"))
+            del sink
+        return {"rounds": out}
+
+    def _observe(self, case, sink=None):
+        """one pass over the entry points for an ordinary case.
+
+        Round 5/6 keys (all optional): `scale_k` — the source-plane world (data grid, mesh vertices, preloaded
+        grid) is handed over multiplied by 2**scale_k and every returned coordinate is multiplied by 2**-scale_k
+        before it is recorded (both exact: the recorded observation lives at the case's own magnitude, where the
+        1e-9 comparison is relative to the world's size); `img_k` — the same for the image-plane geometry (pixel
+        scales, mask origin; `sub_border_grid` is scaled back); `mask_form` / `sub_form` / extended `grid_form`
+        / `mesh_form` — other containers, layouts, constructors for equal values; `opts` — keyword options of
+        `mapper_grids_from`; `sink` receives every array handed to or returned by the API."""
         aa = load_autoarray()
         from autoarray.inversion.pixelization.border_relocator import BorderRelocator
 
+        keep = sink
+        note = (lambda *xs: sink.extend(xs)) if sink is not None else (lambda *xs: None)
         rows = self._rows(case)
-        ps = tuple(float(F(v)) for v in case["ps"])
-        origin = tuple(float(F(v)) for v in case["origin"])
-        mask = aa.Mask2D(mask=np.array(rows, dtype=bool), pixel_scales=ps, origin=origin)
+        sk, ik = int(case.get("scale_k", 0)), int(case.get("img_k", 0))
+        ps = tuple(math.ldexp(float(F(v)), ik) for v in case["ps"])
+        origin = tuple(math.ldexp(float(F(v)), ik) for v in case["origin"])
+        mask = make_mask(aa, rows, ps, origin, case.get("mask_form", "plain"), keep)
         sub = case["sub"]
-        if case.get("int_sub") and len(set(sub)) == 1:
-            sub_size = int(sub[0])
-        else:
-            sub_size = aa.Array2D(values=np.array(sub, dtype=int), mask=mask)
+        sub_size = make_sub(aa, sub, mask, case.get("sub_form", "auto"), bool(case.get("int_sub")), keep)
         br = BorderRelocator(mask=mask, sub_size=sub_size)
-        border = [int(v) for v in np.asarray(mask.derive_indexes.border_slim)]
-        sb = [int(v) for v in np.asarray(br.sub_border_slim)]
+        b_ = mask.derive_indexes.border_slim
+        sb_ = br.sub_border_slim
+        note(b_, sb_)
+        border = [int(v) for v in np.asarray(b_)]
+        sb = [int(v) for v in np.asarray(sb_)]
         obs = {"border": border, "sub_border": sb}
         if not sb:
             obs["empty_border"] = True
             return obs
-        obs["sub_border_grid"] = [[q(a), q(b)] for a, b in np.asarray(br.sub_border_grid)]
-        use_grid2d = all(s == 1 for s in sub) and case.get("via_mesh")
-        grid, before = as_input(aa, case["grid"], case.get("grid_form", "float64"),
-                                mask=mask if use_grid2d else None)
+        sbg = br.sub_border_grid
+        obs["sub_border_grid"] = [[q(a), q(b)] for a, b in np.ldexp(np.asarray(sbg, dtype=float), -ik)]
+        if sink is not None:
+            note(sbg, br.sub_grid, br.border_grid, br.sub_size)
+        scaled = (lambda vals: [(F(a) * F(2) ** sk, F(b) * F(2) ** sk) for a, b in vals]) if sk else (lambda vals: vals)
+        back = lambda o: np.ldexp(np.asarray(o.array if hasattr(o, "array") else o, dtype=float).reshape(-1, 2), -sk)
+        ql = lambda o: [[q(a), q(b)] for a, b in back(o)]
+        use_grid2d = all(s == 1 for s in sub) and (case.get("via_mesh") or case.get("uniform_grid"))
+        grid, before = as_input(aa, scaled(case["grid"]), case.get("grid_form", "float64"),
+                                mask=mask if use_grid2d else None, keep=keep)
         out = br.relocated_grid_from(grid=grid)
+        note(out)
         outa = np.asarray(out.array if hasattr(out, "array") else out, dtype=float).reshape(-1, 2)
-        obs["grid"] = [[q(a), q(b)] for a, b in outa]
+        obs["grid"] = ql(out)
         obs["moved"] = [bool(not (outa[i, 0] == before[i, 0] and outa[i, 1] == before[i, 1]))
                         for i in range(len(before))]
-        obs["input_untouched"] = bool(np.array_equal(
-            np.asarray(grid.array if hasattr(grid, "array") else grid, dtype=float).reshape(-1, 2), before))
+        mesh = None
         if case["mesh"]:
-            mesh, _ = as_input(aa, case["mesh"], case.get("mesh_form", "float64"))
+            if case.get("mesh_form") == "alias_grid":
+                mesh = grid                       # the very same object as data grid and as mesh grid
+            else:
+                mesh, _ = as_input(aa, scaled(case["mesh"]), case.get("mesh_form", "float64"), keep=keep)
             om = br.relocated_mesh_grid_from(grid=grid, mesh_grid=mesh)
-            obs["mesh"] = [[q(a), q(b)] for a, b in np.asarray(om.array).reshape(-1, 2)]
+            obs["mesh"] = ql(om)
             oc = br.relocated_mesh_grid_from(grid=out, mesh_grid=mesh)
-            obs["mesh_chained"] = [[q(a), q(b)] for a, b in np.asarray(oc.array).reshape(-1, 2)]
+            obs["mesh_chained"] = ql(oc)
+            note(om, oc)
             if case.get("via_mesh"):
                 # the documented entry points: mesh.mapper_grids_from(..., border_relocator=...)
                 mg = aa.mesh.Delaunay().mapper_grids_from(
                     mask=mask, source_plane_data_grid=grid, border_relocator=br,
                     source_plane_mesh_grid=mesh)
-                obs["via_delaunay_grid"] = [[q(a), q(b)] for a, b in
-                                            np.asarray(mg.source_plane_data_grid.array).reshape(-1, 2)]
-                obs["via_delaunay_mesh"] = [[q(a), q(b)] for a, b in
-                                            np.asarray(mg.source_plane_mesh_grid.array).reshape(-1, 2)]
+                obs["via_delaunay_grid"] = ql(mg.source_plane_data_grid)
+                obs["via_delaunay_mesh"] = ql(mg.source_plane_mesh_grid)
+                note(mg.source_plane_data_grid, mg.source_plane_mesh_grid)
         if case.get("via_mesh"):
             mg = aa.mesh.Rectangular(shape=(3, 3)).mapper_grids_from(
                 mask=mask, source_plane_data_grid=grid, border_relocator=br)
-            obs["via_rectangular_grid"] = [[q(a), q(b)] for a, b in
-                                           np.asarray(mg.source_plane_data_grid.array).reshape(-1, 2)]
+            obs["via_rectangular_grid"] = ql(mg.source_plane_data_grid)
+            note(mg.source_plane_data_grid, mg.source_plane_mesh_grid)
+        if case.get("opts"):
+            self._observe_opts(aa, case, obs, mask, br, grid, mesh, scaled, ql, keep, note)
+        # last: nothing above may have written into the caller's inputs
+        obs["input_untouched"] = bool(np.array_equal(
+            np.asarray(grid.array if hasattr(grid, "array") else grid, dtype=float).reshape(-1, 2), before))
         return obs
+
+    # ---------------------------------------------------------------- Round 5/6 (R5-F): options of mapper_grids_from
+    OPT_VALUES = {
+        "border_relocator": ["br", "none"],
+        "preloads": ["omit", "empty", "none_slot", "grid"],
+        "run_time_dict": ["omit", "none", "empty", "filled"],
+        "image_plane_mesh_grid": ["omit", "none", "grid"],
+        "adapt_data": ["omit", "none", "zeros", "ones"],
+        "source_plane_mesh_grid": ["mesh", "omit", "none"],       # "omit"/"none" only for Rectangular (not used there)
+    }
+
+    def _observe_opts(self, aa, case, obs, mask, br, grid, mesh, scaled, ql, keep, note):
+        """`mesh.mapper_grids_from` with a combination of its keyword options (names taken from the signature of
+        the real method: an option the tree does not have is not passed)."""
+        import inspect
+        from autoarray.preloads import Preloads
+
+        o = case["opts"]
+        kind = o.get("mesh", "rect")
+        pix = (aa.mesh.Rectangular(shape=tuple(o.get("shape", (3, 3)))) if kind == "rect"
+               else aa.mesh.Voronoi() if kind == "voronoi" else aa.mesh.Delaunay())
+        params = set(inspect.signature(pix.mapper_grids_from).parameters)
+        kw = {"mask": mask, "source_plane_data_grid": grid}
+        v = o.get("kw", {})
+        if "border_relocator" in params and v.get("border_relocator", "br") != "omit":
+            kw["border_relocator"] = br if v.get("border_relocator", "br") == "br" else None
+        pl = v.get("preloads", "omit")
+        if "preloads" in params and pl != "omit":
+            if pl == "grid":
+                pre, _ = as_input(aa, scaled(case["preload"]), "float64", keep=keep)
+                kw["preloads"] = Preloads(relocated_grid=pre)
+            else:
+                kw["preloads"] = Preloads() if pl == "empty" else Preloads(relocated_grid=None)
+        rt = v.get("run_time_dict", "omit")
+        if "run_time_dict" in params and rt != "omit":
+            kw["run_time_dict"] = None if rt == "none" else {} if rt == "empty" else {"earlier_0": 0.5}
+        ip = v.get("image_plane_mesh_grid", "omit")
+        if "image_plane_mesh_grid" in params and ip != "omit":
+            kw["image_plane_mesh_grid"] = None if ip == "none" else aa.Grid2DIrregular(values=[(0.5, -0.25), (1.0, 2.0), (-3.0, 0.125)])
+        ad = v.get("adapt_data", "omit")
+        if "adapt_data" in params and ad != "omit":
+            n_px = int(np.sum(~np.asarray(mask)))
+            kw["adapt_data"] = None if ad == "none" else aa.Array2D(
+                values=np.zeros(n_px) if ad == "zeros" else np.ones(n_px), mask=mask)
+        sm = v.get("source_plane_mesh_grid", "mesh")
+        if kind != "rect" or sm == "mesh":
+            kw["source_plane_mesh_grid"] = mesh
+        elif sm == "none":
+            kw["source_plane_mesh_grid"] = None
+        mg = pix.mapper_grids_from(**kw)
+        obs["opt_grid"] = ql(mg.source_plane_data_grid)
+        note(mg.source_plane_data_grid, mg.source_plane_mesh_grid)
+        if kind != "rect":
+            obs["opt_mesh"] = ql(mg.source_plane_mesh_grid)
 
     # ------------------------------------------------------------------ model
     def model_requests(self, case, impl_obs):
@@ -1497,6 +2074,12 @@ class C18(PropertyCheck):
             return []                       # judged by the vectorised oracle alone (DESIGN §13)
         if case.get("kind") == "history":
             return self._history_requests(case, impl_obs)
+        if case.get("kind") == "own":
+            first = impl_obs["rounds"][0]
+            return [] if "err" in first else self._requests_ordinary(case["base"], first)
+        return self._requests_ordinary(case, impl_obs)
+
+    def _requests_ordinary(self, case, impl_obs):
         reqs = [{"op": "c18.sub_border", "mask": case["mask"], "sub": case["sub"],
                  "border": impl_obs["border"]}]
         if impl_obs.get("empty_border"):
@@ -1507,7 +2090,25 @@ class C18(PropertyCheck):
         if case["mesh"]:
             r["mesh"] = case["mesh"]
         reqs.append(r)
+        if self._opt_branch(case) == "preload" and case["mesh"] and case["opts"].get("mesh", "rect") != "rect":
+            # the data grid of the mapper is the preloaded one: the mesh vertices go against ITS border
+            reqs.append({"op": "c18.relocate", "grid": case["preload"], "sub_border": impl_obs["sub_border"],
+                         "mesh": case["mesh"]})
         return reqs
+
+    @staticmethod
+    def _opt_branch(case):
+        """which documented branch of `mapper_grids_from` a combination of options selects: a preloaded relocated
+        grid is used as it is; otherwise no relocator -> nothing is relocated; otherwise the border rule."""
+        o = case.get("opts")
+        if not o:
+            return None
+        v = o.get("kw", {})
+        if v.get("preloads", "omit") == "grid":
+            return "preload"
+        if v.get("border_relocator", "br") != "br":
+            return "identity"
+        return "relocate"
 
     def model_obs(self, case, responses):
         for r in responses:
@@ -1519,6 +2120,8 @@ class C18(PropertyCheck):
         if len(responses) > 1:
             out["sub_grid"] = responses[1]["ok"]
             out.update(responses[2]["ok"])
+        if len(responses) > 3:
+            out["preload_mesh"] = responses[3]["ok"]["mesh"]
         return out
 
     def compare(self, case, impl_obs, model_obs, cmp):
@@ -1526,6 +2129,16 @@ class C18(PropertyCheck):
             return cmp.diff(impl_obs, model_obs)
         if case.get("kind") == "history":
             return self._compare_history(case, impl_obs, model_obs, cmp)
+        if case.get("kind") == "own":
+            for k, ob in enumerate(impl_obs["rounds"]):
+                d = cmp.diff(ob, model_obs) if "err" in ob else self._compare_ordinary(case["base"], ob, model_obs, cmp)
+                if d:
+                    return (f"$.rounds[{k}]" + d[1:] + "  [round %d of observe -> scribble over every array -> rebuild from "
+                            "fresh equal inputs; expected = model value for a fresh world]" % (k + 1))
+            return None
+        return self._compare_ordinary(case, impl_obs, model_obs, cmp)
+
+    def _compare_ordinary(self, case, impl_obs, model_obs, cmp):
         exact_sub = all(s in POW2 for s in case["sub"])
         sb_i, sb_m, ties = impl_obs["sub_border"], model_obs["sub_border"], model_obs["ties"]
         if len(sb_i) != len(sb_m):
@@ -1537,9 +2150,11 @@ class C18(PropertyCheck):
                     return d
             elif a not in ties[k]:
                 return f"$.sub_border[{k}]: impl={a} not among the exact maximisers {ties[k]}"
-        if impl_obs.get("empty_border"):
+        if impl_obs.get("empty_border") or "sub_grid" not in model_obs:
             return None
         sg = model_obs["sub_grid"]
+        if any(i >= len(sg) or i < 0 for i in sb_i):
+            return f"$.sub_border: index outside the over-sampled grid of {len(sg)} sub-pixels"
         d = cmp.diff(impl_obs["sub_border_grid"], [sg[i] for i in sb_i], "$.sub_border_grid")
         if d:
             return d
@@ -1562,6 +2177,26 @@ class C18(PropertyCheck):
                 d = cmp.diff(impl_obs[key], model_obs.get(key), f"$.{key}")
                 if d:
                     return d
+        # entry points through the meshes: the same model values
+        for key, mkey in (("via_delaunay_grid", "grid"), ("via_rectangular_grid", "grid"),
+                          ("via_delaunay_mesh", "mesh_chained")):
+            if key in impl_obs:
+                d = cmp.diff(impl_obs[key], model_obs.get(mkey), f"$.{key}")
+                if d:
+                    return d
+        branch = self._opt_branch(case)
+        if branch and "opt_grid" in impl_obs:
+            exp_g = {"preload": case.get("preload"), "identity": case["grid"], "relocate": model_obs["grid"]}[branch]
+            d = cmp.diff(impl_obs["opt_grid"], exp_g, f"$.opt_grid[{branch}]")
+            if d:
+                return d
+            if "opt_mesh" in impl_obs:
+                relocating = case["opts"].get("kw", {}).get("border_relocator", "br") == "br"
+                exp_m = (case["mesh"] if not relocating else model_obs.get("preload_mesh") if branch == "preload"
+                         else model_obs.get("mesh_chained"))
+                d = cmp.diff(impl_obs["opt_mesh"], exp_m, f"$.opt_mesh[{branch}]")
+                if d:
+                    return d
         return None
 
     # ------------------------------------------------------------------ oracle
@@ -1572,6 +2207,20 @@ class C18(PropertyCheck):
             return obs["verdict"]["holds"], obs["verdict"]["detail"]
         if case.get("kind") == "history":
             return self._oracle_history(case, obs)
+        if case.get("kind") == "own":
+            for k, ob in enumerate(obs["rounds"]):
+                ok, why = (False, f"implementation raised {ob}") if "err" in ob else self._oracle_ordinary(case["base"], ob)
+                if not ok:
+                    return False, (f"round {k + 1} (observe -> scribble in place over every array handed to / returned by "
+                                   f"the API -> rebuild the same world from fresh equal inputs -> observe): {why}")
+            return True, ""
+        return self._oracle_ordinary(case, obs)
+
+    def _oracle_ordinary(self, case, obs):
+        for key, val in obs.items():
+            if isinstance(val, list) and any(isinstance(c_, str) and c_.lstrip("-") in ("nan", "inf")
+                                             for pt in val if isinstance(pt, list) for c_ in pt):
+                return False, f"{key} contains a non-finite coordinate"
         rows = self._rows(case)
         sub = case["sub"]
         border, sb = obs["border"], obs["sub_border"]
@@ -1618,67 +2267,111 @@ class C18(PropertyCheck):
                 ok, why = self._check_relocation(an, grid, pts(obs[key]), None, key)
                 if not ok:
                     return False, why
+        branch = self._opt_branch(case)
+        if branch and "opt_grid" in obs:
+            # options of mapper_grids_from, as documented: a preloaded relocated grid IS the data grid; without a
+            # relocator nothing moves; otherwise the border rule — whatever the unrelated options are
+            what = f"mapper_grids_from({case['opts'].get('mesh', 'rect')}, {case['opts'].get('kw', {})})"
+            got = pts(obs["opt_grid"])
+            if branch == "relocate":
+                ok, why = self._check_relocation(an, grid, got, None, "source_plane_data_grid")
+                if not ok:
+                    return False, f"{what}: {why}"
+                data = grid
+            else:
+                data = pts(case["preload"]) if branch == "preload" else grid
+                if got != data:
+                    bad = next((i for i, (x, y) in enumerate(zip(got, data)) if x != y), min(len(got), len(data)))
+                    return False, (f"{what}: source_plane_data_grid[{bad}] is not the "
+                                   f"{'preloaded relocated grid' if branch == 'preload' else 'input grid (no relocator given)'}")
+            if "opt_mesh" in obs:
+                mesh = pts(case["mesh"])
+                gotm = pts(obs["opt_mesh"])
+                if case["opts"].get("kw", {}).get("border_relocator", "br") != "br":
+                    if gotm != mesh:
+                        return False, f"{what}: mesh vertices changed although no relocator was given"
+                else:
+                    an2 = an if branch == "relocate" else Analysis([data[i] for i in sb])
+                    ok, why = self._check_relocation(an2, mesh, gotm, None, "source_plane_mesh_grid")
+                    if not ok:
+                        return False, f"{what}: {why} (mesh vertices must be relocated against the DATA grid's border)"
         return True, ""
 
     @staticmethod
     def _check_relocation(an, inp, out, moved, name, base=0, total=None):
         if len(out) != len(inp):
             return False, f"(c) {name}: {len(inp)} coordinates in, {len(out)} out"
-        o = an.o
+        good = an._good          # (input, output) pairs already judged fine against this border
         for i0, (p, r) in enumerate(zip(inp, out)):
+            if (p, r) in good:
+                continue
+            why = C18._judge_point(an, p, r)
+            if why is None:
+                good.add((p, r))
+                continue
             i = f"{i0 + base} of {total}" if total is not None else i0 + base
-            rp2, band, cand = an.point(p)
-            scale = max(1, abs(p[0]), abs(p[1]), abs(o[0]), abs(o[1]))
-            tol = 4 * BAND * scale
-            same = (r == p)
-            close_same = abs(r[0] - p[0]) <= tol and abs(r[1] - p[1]) <= tol
-            ro2 = sq(r, o)
-            # global inequalities: never outward, never beyond the farthest border point
-            if not radius_leq(ro2, rp2, tol):
-                return False, f"(b) {name}[{i}] moved outward: radius² {float(rp2)} -> {float(ro2)}"
-            if not radius_leq(ro2, an.rmax2, tol):
-                return False, (f"(c) {name}[{i}] ends at radius² {float(ro2)} beyond the farthest border "
-                               f"point ({float(an.rmax2)})")
-            if rp2 <= an.rmin2 and (not band or p in an.bset):
-                # (a) inside the smallest border radius (strictly, or exactly a min-radius border point)
-                if not same:
-                    return False, (f"(a) {name}[{i}] has radius <= the smallest border radius but is not "
-                                   f"bit-for-bit unchanged: {tuple(map(float, p))} -> {tuple(map(float, r))}")
-                continue
-            if p in an.bset:
-                # its nearest border point is itself: the radius is not smaller, so it stays
-                if not close_same:
-                    return False, f"(b) {name}[{i}] coincides with a border point but was moved"
-                continue
-            # expected outcomes for each (near-)nearest border point
-            outcomes = []
-            if band and rp2 <= an.rmin2 * (1 + 4 * BAND):
-                outcomes.append(p)
-            for rb2 in cand:
-                if rb2 < rp2:
-                    t = fsqrt(rb2 / rp2)
-                    tF = F(t)
-                    outcomes.append((o[0] + tF * (p[0] - o[0]), o[1] + tF * (p[1] - o[1])))
-                    if rb2 >= rp2 * (1 - 4 * BAND):
-                        outcomes.append(p)
-                else:
-                    outcomes.append(p)
-            hit = any(abs(r[0] - e[0]) <= tol and abs(r[1] - e[1]) <= tol for e in outcomes)
-            if not hit:
-                return False, (f"(b) {name}[{i}]: {tuple(map(float, p))} -> {tuple(map(float, r))}, expected "
-                               f"{[tuple(map(float, e)) for e in outcomes]} (centroid {tuple(map(float, o))})")
-            # same ray: cross product zero, dot product non-negative
-            cr = (r[0] - o[0]) * (p[1] - o[1]) - (r[1] - o[1]) * (p[0] - o[0])
-            dt = (r[0] - o[0]) * (p[0] - o[0]) + (r[1] - o[1]) * (p[1] - o[1])
-            if abs(cr) > tol * (abs(p[0] - o[0]) + abs(p[1] - o[1]) + tol) * 2 or dt < -tol * tol:
-                return False, f"(b) {name}[{i}] left its ray from the centroid"
+            return False, why.replace("@", f"{name}[{i}]")
         return True, ""
+
+    @staticmethod
+    def _judge_point(an, p, r):
+        """clauses (a)(b)(c) for ONE coordinate p -> r against the border of `an`; None when they hold, else the
+        message ('@' stands for the name[index] of the coordinate)."""
+        o = an.o
+        rp2, band, cand = an.point(p)
+        scale = max(1, abs(p[0]), abs(p[1]), abs(o[0]), abs(o[1]))
+        tol = 4 * BAND * scale
+        same = (r == p)
+        close_same = same or (abs(r[0] - p[0]) <= tol and abs(r[1] - p[1]) <= tol)
+        ro2 = rp2 if same else sq(r, o)
+        # global inequalities: never outward, never beyond the farthest border point
+        if not same and not radius_leq(ro2, rp2, tol):
+            return f"(b) @ moved outward: radius² {float(rp2)} -> {float(ro2)}"
+        if not radius_leq(ro2, an.rmax2, tol):
+            return (f"(c) @ ends at radius² {float(ro2)} beyond the farthest border "
+                    f"point ({float(an.rmax2)})")
+        if rp2 <= an.rmin2 and (not band or p in an.bset):
+            # (a) inside the smallest border radius (strictly, or exactly a min-radius border point)
+            if not same:
+                return (f"(a) @ has radius <= the smallest border radius but is not "
+                        f"bit-for-bit unchanged: {tuple(map(float, p))} -> {tuple(map(float, r))}")
+            return None
+        if p in an.bset:
+            # its nearest border point is itself: the radius is not smaller, so it stays
+            if not close_same:
+                return "(b) @ coincides with a border point but was moved"
+            return None
+        # expected outcomes for each (near-)nearest border point
+        outcomes = []
+        if band and rp2 <= an.rmin2 * (1 + 4 * BAND):
+            outcomes.append(p)
+        for rb2 in cand:
+            if rb2 < rp2:
+                t = fsqrt(rb2 / rp2)
+                tF = F(t)
+                outcomes.append((o[0] + tF * (p[0] - o[0]), o[1] + tF * (p[1] - o[1])))
+                if rb2 >= rp2 * (1 - 4 * BAND):
+                    outcomes.append(p)
+            else:
+                outcomes.append(p)
+        hit = any(abs(r[0] - e[0]) <= tol and abs(r[1] - e[1]) <= tol for e in outcomes)
+        if not hit:
+            return (f"(b) @: {tuple(map(float, p))} -> {tuple(map(float, r))}, expected "
+                    f"{[tuple(map(float, e)) for e in outcomes]} (centroid {tuple(map(float, o))})")
+        # same ray: cross product zero, dot product non-negative
+        cr = (r[0] - o[0]) * (p[1] - o[1]) - (r[1] - o[1]) * (p[0] - o[0])
+        dt = (r[0] - o[0]) * (p[0] - o[0]) + (r[1] - o[1]) * (p[1] - o[1])
+        if abs(cr) > tol * (abs(p[0] - o[0]) + abs(p[1] - o[1]) + tol) * 2 or dt < -tol * tol:
+            return "(b) @ left its ray from the centroid"
+        return None
 
     def nontrivial(self, case, obs):
         if case.get("kind") == "large":
             return 0 < obs.get("n_moved", 0) < obs.get("n", 0)
         if case.get("kind") == "history":
             return bool(obs.get("nontrivial"))
+        if case.get("kind") == "own":
+            return any("moved" in o and any(o["moved"]) and not all(o["moved"]) for o in obs.get("rounds", []))
         if "moved" in obs:
             return any(obs["moved"]) and not all(obs["moved"])
         return False
@@ -1690,9 +2383,32 @@ class C18(PropertyCheck):
         if case.get("kind") == "history":
             yield from self._shrink_history(case)
             return
-        g = case["grid"]
-        # drop mesh points, then simplify non-border grid points
-        if case["mesh"]:
+        if case.get("kind") == "own":
+            if case.get("rounds", 3) > 2:
+                yield {**case, "rounds": case["rounds"] - 1}
+            for b in self._shrink_ordinary(case["base"]):
+                yield {**case, "base": b}
+            return
+        yield from self._shrink_ordinary(case)
+
+    @staticmethod
+    def _shrink_ordinary(case):
+        # the Round 5/6 ingredients first (a failure that survives without one of them did not need it) ...
+        for key, plain in (("opts", None), ("scale_k", 0), ("img_k", 0), ("mask_form", "plain"), ("sub_form", "auto"),
+                           ("grid_form", "float64"), ("mesh_form", "float64"), ("uniform_grid", False)):
+            if case.get(key) not in (None, plain) and not (key == "mesh_form" and case.get(key) == "alias_grid"):
+                if key in ("grid_form", "mesh_form") and "int" in str(case.get(key)):
+                    continue                    # integer forms carry rounded values: keep them
+                c2 = {k: v for k, v in case.items() if k != key}
+                if plain is not None and key not in ("opts",):
+                    c2[key] = plain
+                yield c2
+        kw = (case.get("opts") or {}).get("kw", {})
+        for k in kw:
+            if kw[k] not in ("omit", "br", "mesh"):
+                yield {**case, "opts": {**case["opts"], "kw": {**kw, k: {"border_relocator": "br", "source_plane_mesh_grid": "mesh"}.get(k, "omit")}}}
+        # ... then drop mesh points
+        if case["mesh"] and case.get("mesh_form") != "alias_grid" and (len(case["mesh"]) > 1 or not case.get("opts")):
             for i in range(len(case["mesh"])):
                 yield {**case, "mesh": case["mesh"][:i] + case["mesh"][i + 1:]}
         if case.get("via_mesh"):
